@@ -4,7 +4,7 @@ Campaign: arrays with 10^12 .. 10^18 logical elements and 3 .. 3000 stored eleme
 coordinates drawn as Python ints); every operation of the listed families (fill-preserving
 element-wise, indexing, reductions, shape manipulation, joining, format conversion, 1-d/2-d
 products, nonzero, sort along a short axis) is run by the implementation in a FORKED CHILD of a warm
-worker under RLIMIT_AS = (virtual size of the warm worker at the fork) + 3 GiB and a 30 s limit;
+worker under RLIMIT_AS = (virtual size of the warm worker at the fork) + 3 GiB and a 30 s CPU-time limit;
 the result's raw representation (coords/data, or data/indices/indptr, or the DOK dict) is compared
 inside Coq with the sparse-only reference of Model/SparseOps.v (exact in Z, proved to have the NumPy
 meaning and to build no list longer than the stored elements: Props/C16.v).
@@ -55,7 +55,8 @@ ASSUMPTIONS = [
 ]
 
 HEADROOM = 3 * 2 ** 30
-TLIMIT = 30.0
+TLIMIT = 30.0                # seconds of CPU time of the forked child
+WALL_BACKSTOP = 240.0        # wall-clock seconds after which the parent kills the child regardless
 
 CL_G1 = "G1_gcxs_reduce_recompresses_kept_axes"
 CL_G2 = "G2_gcxs_getitem_enumerates_selected_columns"
@@ -310,6 +311,13 @@ def impl_case(case):
             except BaseException as ex:  # noqa: BLE001
                 out = {"k": "other", "repr": f"BUILD FAILED {type(ex).__name__}: {ex}"[:200], "build_failed": True}
                 arrs = None
+            if arrs is not None:
+                # the time limit is on the child's own CPU time (SIGXCPU ends it), so that a loaded machine does not
+                # turn slow-but-finishing calls into time-outs; the parent keeps a generous wall-clock backstop
+                used = resource.getrusage(resource.RUSAGE_SELF)
+                _s, _h = resource.getrlimit(resource.RLIMIT_CPU)
+                lim = int(used.ru_utime + used.ru_stime + TLIMIT) + 1
+                resource.setrlimit(resource.RLIMIT_CPU, (lim if _h == resource.RLIM_INFINITY else min(lim, _h), _h))
             if arrs is not None and "steps" in case:
                 soft, hard = resource.getrlimit(resource.RLIMIT_AS)
                 resource.setrlimit(resource.RLIMIT_AS, (_vmsize() + HEADROOM, hard))
@@ -359,7 +367,7 @@ def impl_case(case):
             os._exit(0)
     os.close(wr)
     buf = b""
-    deadline = time.time() + TLIMIT + 8.0          # + building the operands and pickling the result
+    deadline = time.time() + WALL_BACKSTOP          # the CPU-time limit inside the child is the real limit
     while True:
         left = deadline - time.time()
         if left <= 0:
@@ -380,7 +388,9 @@ def impl_case(case):
             pass
     _, status = os.waitpid(pid, 0)
     if timed_out:
-        return {"hang": True, "secs": TLIMIT, "msg": f"no result within {TLIMIT}s"}
+        return {"hang": True, "secs": TLIMIT, "msg": f"no result within {WALL_BACKSTOP}s wall clock"}
+    if not buf and os.WIFSIGNALED(status) and os.WTERMSIG(status) in (signal.SIGXCPU, signal.SIGKILL):
+        return {"hang": True, "secs": TLIMIT, "msg": f"no result within {TLIMIT}s of CPU time"}
     if not buf:
         return {"k": "exc", "exc": "OtherError", "cls": "Killed", "msg": f"child died, status {status}"}
     try:
@@ -1029,7 +1039,7 @@ def campaign(build, tier, seed, report, budget=1):
         rng = random.Random(seed * 7919 + 16)
         cases = gen_cases(tier, rng)
         t0 = time.time()
-        res = vlib.run_impl("props.c16", "impl_case", cases, workers=6, per_case_timeout=TLIMIT + 20.0)
+        res = vlib.run_impl("props.c16", "impl_case", cases, workers=6, per_case_timeout=WALL_BACKSTOP + 30.0)
         _IMPL_CACHE[key] = (cases, res, time.time() - t0)
     cases, res, t_impl = _IMPL_CACHE[key]
     n_calls = len(cases)
@@ -1087,7 +1097,7 @@ def campaign(build, tier, seed, report, budget=1):
                      "family": c["family"], "format": c["fmt"], "kind": kind, "clause": clause_of(c, r, code),
                      "code": code, "meaning": CODE_MEANING[code], "case": small,
                      "impl": {k: v for k, v in (r or {}).items() if k in ("k", "exc", "cls", "msg", "hang", "secs", "rss_mb", "shape", "repr", "crash")},
-                     "limits": {"address_space": "baseline + 3 GiB", "seconds": TLIMIT},
+                     "limits": {"address_space": "baseline + 3 GiB", "cpu_seconds": TLIMIT, "wall_backstop_seconds": WALL_BACKSTOP},
                      "minimal_repro": MINIMAL_REPRO.get(clause_of(c, r, code)),
                      "sequence": c.get("sequence"),
                      "replay_py": replay_program(c.get("seq_case", c))})
